@@ -90,6 +90,7 @@ fn main() {
         ("encoder", "trace") => relations::encoder_trace(&args, &mut s),
         ("c07", "relations") => relations::c07_relations(&args, &mut s),
         ("timingcodec", "replay") => codec::timing_replay(&args, &mut s),
+        ("samplecodec", "replay") => codec::sample_replay(&args, &mut s),
         ("edits", "replay") => edits::text_replay(&args, &mut s),
         ("edits", "relations") => edits::relations(&args, &mut s),
         ("mappost", "replay") => mappost::replay(&args, &mut s),
